@@ -19,6 +19,13 @@ HAND = [
     ("sv", "module m; wire \\esc+id , \\other ; assign \\esc+id = 1'b0; endmodule"),
     ("lib", "library rtlLib \"*.v\" -incdir \"a\", b;\ninclude \"x\";\nconfig c; design d; endconfig\n"),
     ("lib", "// c\nlibrary é \"ü\";\n"),
+    # tokens that span several lines: the recorded line is that of the token's first byte
+    ("sv", "module m; initial $display(\"first \\\nsecond\", 1); // c\n initial $display(\"a\nb\\\n\\\nc\"); wire w;\nendmodule\n"),
+    ("sv", "/* a\n b\n c */ module m; /* x\n y */ wire /* \n\n */ w; /**/\n/*\n*/endmodule /* end\n */\n"),
+    ("sv", "`define M(a) a + \\\n 1 + \\\n 2\nmodule m; wire [7:0] w = `M(3);\n`define S \"x \\\n y\"\n string s = `S;\nendmodule\n"),
+    ("sv", "module m;\n`pragma protect begin\n`line 3 \"f.v\" 1\n`timescale 1ns\n  /  1ps\n wire w;\nendmodule\n"),
+    ("sv", "module m; initial begin s = {\"a\\\nb\", \"c\"}; t = \"\\\n\"; end\r\n wire \\e$c ;\r\nendmodule\r\n"),
+    ("lib", "library l \"a\\\nb\",\n  \"c\";\n/* x\n */ include \"y\";\n"),
 ]
 
 
